@@ -450,7 +450,12 @@ mod exec {
         /// use `detached()`.
         pub fn capture(self) -> PopenResult<CaptureData> {
             let (mut comm, mut p) = self.setup_communicate()?;
-            let (maybe_out, maybe_err) = comm.read()?;
+            let captured = comm.read();
+            // Release our pipe ends before the child is waited for: if the
+            // exchange failed, the child may still be writing to them, and
+            // `p` is waited for when it is dropped.
+            drop(comm);
+            let (maybe_out, maybe_err) = captured?;
             Ok(CaptureData {
                 stdout: maybe_out.unwrap_or_else(Vec::new),
                 stderr: maybe_err.unwrap_or_else(Vec::new),
@@ -1102,7 +1107,12 @@ mod pipeline {
         /// close.  If this is undesirable, use `detached()`.
         pub fn capture(self) -> PopenResult<CaptureData> {
             let (mut comm, mut v) = self.setup_communicate()?;
-            let (out, err) = comm.read()?;
+            let captured = comm.read();
+            // Release our pipe ends before the commands are waited for: if
+            // the exchange failed, they may still be writing to them, and
+            // `v` is waited for when it is dropped.
+            drop(comm);
+            let (out, err) = captured?;
             let out = out.unwrap_or_else(Vec::new);
             let err = err.unwrap();
 
